@@ -2207,6 +2207,11 @@ PIP_Solution_Node::row_sign(const Row& x,
       sign = NEGATIVE;
     }
   }
+  // A row without constant term vanishes when the parameters it mentions
+  // are zero: it is not strictly negative on the whole context.
+  if (sign == NEGATIVE && x.get(0) == 0) {
+    return MIXED;
+  }
   return sign;
 }
 
@@ -2990,7 +2995,7 @@ PIP_Solution_Node::solve(const PIP_Problem& pip,
             switch (sign_i) {
             case ZERO:
               if (product > 0) {
-                sign_i = NEGATIVE;
+                sign_i = (j.index() == 0) ? NEGATIVE : MIXED;
               }
               else if (product < 0) {
                 sign_i = POSITIVE;
